@@ -203,7 +203,10 @@ def check_per_event_delegation(ctx, tu, cls, rule):
                     oa = [a for a in ats if ('%s(' % op) in a or ('.%s' % op) in a or ('->%s' % op) in a]
                     okr = len(la) == 1 and len(oa) == 1 and len(ats) == 2
                     if okr:
-                        want_f = ('or', ('and', ('atom', la[0]), ('atom', oa[0])), ('and', ('not', ('atom', la[0])), ('const', empty_result)))
+                        # the list test may be written `list`, `list != nullptr` or `list == nullptr`
+                        t = la[0].replace(' ', '')
+                        has_list = ('not', ('atom', la[0])) if t.endswith('==nullptr') or t.startswith('nullptr==') else ('atom', la[0])
+                        want_f = ('or', ('and', has_list, ('atom', oa[0])), ('and', ('not', has_list), ('const', empty_result)))
                         okr = F.equivalent(fm, want_f)[0]
                     shown = F.show(fm)
                 except F.Unsupported as e:
